@@ -320,6 +320,7 @@ func TestBlockSync(t *testing.T) {
 	defer closeBSWorld()
 	rapid.Check(t, func(t *rapid.T) {
 		w := getBSWorld(t)
+		acct = newAccount(false)
 		syncing := weighted(t, "mode", 70, 30) == 0
 		nd := w.s.Nodes[0]
 		if syncing {
@@ -411,7 +412,7 @@ func TestBlockSync(t *testing.T) {
 			if !run.call(fmt.Sprintf("blocksync Receive(message %d)", i), len(wr.data), func() { r.Receive(wr.ch, peer, wr.data) }) {
 				break
 			}
-			run.settle(len(wr.data))
+			run.settle(0)
 			if !peer.IsRunning() {
 				classes = append(classes, "blocksync:peer-dropped")
 				break
